@@ -137,6 +137,15 @@ func one(v Vec, kind string, cli bool) string {
 		hx.Must(repo.LocalConfig().StoreString("git-bug.bridge.x.target", "gitlab"))
 	}
 	hx.Must(repo.UpdateRef("refs/heads/unrelated", ents["o2"].head))
+	// the host project's own remote-tracking branches, some named like git-bug's namespaces begin
+	var hostTracking []string
+	for _, m := range v.Remotes {
+		for _, name := range []string{"main", "bugsnag-integration", "bugs-2024-triage", "identities-cleanup", "bug"} {
+			ref := "refs/remotes/" + m + "/" + name
+			hx.Must(repo.UpdateRef(ref, ents["o2"].head))
+			hostTracking = append(hostTracking, ref)
+		}
+	}
 	foreignBefore := foreign(repo, ents, ns)
 
 	project := func() State {
@@ -374,6 +383,11 @@ func one(v Vec, kind string, cli bool) string {
 			if strings.HasPrefix(r, "refs/bugs/") || strings.HasPrefix(r, "refs/identities/") ||
 				(strings.HasPrefix(r, "refs/remotes/") && (strings.Contains(r, "/bugs/") || strings.Contains(r, "/identities/"))) {
 				return "wipe left ref " + r
+			}
+		}
+		for _, ref := range hostTracking {
+			if ok, _ := repo.RefExist(ref); !ok {
+				return "wipe removed the host project's remote-tracking branch " + ref
 			}
 		}
 		if ok, _ := repo.RefExist("refs/heads/unrelated"); !ok {
